@@ -12,6 +12,7 @@ def prepare(): exes()
 
 MIX2 = ["plain|plain-latex", "plain|email", "email|email2", "random-foot|random-foot2", "epub|plain", "plain+plain-latex|plain-latex+plain", "epub|email", "critic-a|critic-r", "opml-in|meta", "de|plain", "img-a|img-b", "raw-a|raw-b", "sink-a|sink-b", "sink-b-latex|sink-a-fodt"]
 MIX3 = ["plain|plain-latex|plain", "plain|email|plain-latex", "email|email2|random-foot"]
+BOUND2_ONLY = {"email|email2|random-foot"}      # three threads that all draw random numbers: > 2*10^5 schedules at bound 3; explored completely at bound 2
 BENIGN = {"lc_lookup", "yyRuleName", "yyTokenName", "s_error_descs"}
 
 def run_sched(exe, bound, dl, mixes):
@@ -60,7 +61,9 @@ def run(tier):
     rep.assumptions = ["interference below the granularity of these calls is the ThreadSanitizer pass's job (a detector, not an enumerator)", "writable globals are re-inventoried with nm on every run and listed in the evidence"]
     bound = 2 if tier == "quick" else 3
     mixes = MIX2 if tier == "quick" else MIX2 + MIX3
-    lines, errs = run_sched(ex["sched"], bound, dl * 0.5, mixes)
+    lines, errs = run_sched(ex["sched"], bound, dl * 0.5, [m for m in mixes if m not in BOUND2_ONLY])
+    if tier != "quick":
+        l2, e2 = run_sched(ex["sched"], 2, dl * 0.2, [m for m in mixes if m in BOUND2_ONLY]); lines += l2; errs += e2
     sched = trans = 0; complete = True; distinct = 0
     for ln in lines:
         try: x = json.loads(ln)
@@ -76,7 +79,7 @@ def run(tier):
     rep.internal_errors += errs
     npoints = sum(1 for _ in []) 
     rep.states, rep.transitions, rep.traces = max(sched, 1), max(sched, 1), sched
-    rep.add_level("schedules-bound%d" % bound, sched, sched, complete, time.time() - t0, distinct, "all schedules with <= %d preemptions for %d thread mixes" % (bound, len(mixes)))
+    rep.add_level("schedules-bound%d" % bound, sched, sched, complete, time.time() - t0, distinct, "all schedules with <= %d preemptions for %d thread mixes%s" % (bound, len(mixes), "" if tier == "quick" else " (the three-thread mix whose threads all draw random numbers: <= 2)"))
     rep.add_sample(dict(mix="email|email2", threads=2, jobs=["mail <a@b.c> here (EXT_OBFUSCATE, html)", "<mailto:x@y.zz> text (html)"], bound=bound))
     rep.add_sample(dict(mix="plain|plain-latex", note="negative control: no shared state touched"))
     # 2b. the same explorer on a build instrumented with -finstrument-functions: EVERY function entry and return of the library is a scheduling
@@ -92,7 +95,8 @@ def run(tier):
             fsched += x["schedules"]; fdist += x["distinct_outcomes"]; fcomplete &= x["complete"]
             rep.extra.setdefault("bounds_function_granularity", []).append({k: v for k, v in x.items() if k != "t"})
         elif x["t"] == "viol":
-            rep.add_violation(x["sig"] + ":function-granularity", x["detail"], dict(mix=x["mix"], preemptions=x["preemptions"], preempted_at=x["schedule"]), replay=dict(kind="sched_fn", mix=x["mix"], bound=1))
+            # the generator findings are the same root cause at either granularity; anything else keeps the suffix
+            rep.add_violation(x["sig"] if x["sig"].endswith(("knuth-generator", "libc-rand")) else x["sig"] + ":function-granularity", x["detail"], dict(mix=x["mix"], preemptions=x["preemptions"], preempted_at=x["schedule"]), replay=dict(kind="sched_fn", mix=x["mix"], bound=1))
         elif x["t"] == "internal": rep.internal_errors.append(x["what"])
     rep.internal_errors += errs
     rep.states += fsched; rep.transitions += fsched; rep.traces += fsched
